@@ -314,22 +314,34 @@ func (cmd *showCmd) Execute(ctx context.Context, f *flag.FlagSet, args ...interf
 			}
 			for i := range outGroups {
 				fmt.Printf("\tOutputs given %s:\n", outGroups[i].name)
-				out := make(map[string]token.Pos, outGroups[i].outputs.Len())
+				// Distinct types can print alike (struct{ x int } of two
+				// packages), so the printed form cannot serve as a key.
+				type output struct {
+					typ string
+					pos token.Pos
+				}
+				out := make([]output, 0, outGroups[i].outputs.Len())
 				outGroups[i].outputs.Iterate(func(t types.Type, v interface{}) {
 					switch v := v.(type) {
 					case *wire.Provider:
-						out[types.TypeString(t, nil)] = v.Pos
+						out = append(out, output{types.TypeString(t, nil), v.Pos})
 					case *wire.Value:
-						out[types.TypeString(t, nil)] = v.Pos
+						out = append(out, output{types.TypeString(t, nil), v.Pos})
 					case *wire.Field:
-						out[types.TypeString(t, nil)] = v.Pos
+						out = append(out, output{types.TypeString(t, nil), v.Pos})
 					default:
 						panic("unreachable")
 					}
 				})
-				for _, t := range sortSet(out) {
-					fmt.Printf("\t\t%s\n", t)
-					fmt.Printf("\t\t\tat %v\n", info.Fset.Position(out[t]))
+				sort.Slice(out, func(i, j int) bool {
+					if out[i].typ != out[j].typ {
+						return out[i].typ < out[j].typ
+					}
+					return info.Fset.Position(out[i].pos).String() < info.Fset.Position(out[j].pos).String()
+				})
+				for _, o := range out {
+					fmt.Printf("\t\t%s\n", o.typ)
+					fmt.Printf("\t\t\tat %v\n", info.Fset.Position(o.pos))
 				}
 			}
 		}
